@@ -80,7 +80,7 @@ DIRECTIONS = {
 }
 RATES = [0.01, 0.1, 0.3]
 BASE_RATE = 0.1
-DTYPES = ['uint8', 'int64', 'list']
+DTYPES = ['uint8', 'int64', 'list', 'bool']
 MODES = ['fresh', 'reused-asc', 'reused-desc']
 RANK_ALL = 10
 # The property attaches "the trivial syndrome yields the trivial correction" to the complete decoders; for the
@@ -107,8 +107,8 @@ BOUNDS = {
     'quick': {
         'l_max_2d': 4, 'l_max_3d': 3, 'rank_all': RANK_ALL,
         'MatchingDecoder': {'n_max': 20, 'n_hard': 100, 'n_full': 6, 'n_star': 9, 'n_w2': 16, 'split': False},
-        'UnionFindDecoder': {'n_max': 18, 'n_hard': 100, 'n_full': 0, 'n_star': 8, 'n_w2': 0, 'split': True,
-                             'base_dtypes': False},
+        'UnionFindDecoder': {'n_max': 24, 'n_hard': 100, 'n_full': 0, 'n_star': 8, 'n_w2': 24, 'split': True,
+                             'base_dtypes': True, 'base_dtype_list': ['bool']},
         'SweepMatchDecoder': {'n_max': 24, 'n_hard': 100, 'n_full': 0, 'n_star': 0, 'n_w2': 24, 'split': True,
                               'classes': {'Planar3DCode': {'n_w2': 12}}},
         'RotatedSweepMatchDecoder': {'n_max': 16, 'n_hard': 100, 'n_full': 0, 'n_star': 0, 'n_w2': 10,
@@ -210,7 +210,8 @@ def cases(tier, seed):
                     else:
                         points.append((base_noise, plist[:1], [BASE_RATE], ['uint8'], MODES))
                         if db.get('base_dtypes', True):
-                            points.append((base_noise, plist[:1], [BASE_RATE], DTYPES[1:], ['reused-asc']))
+                            points.append((base_noise, plist[:1], [BASE_RATE], db.get('base_dtype_list', DTYPES[1:]),
+                                           ['reused-asc']))
                     for nz, ps, rates, dtypes, modes in points:
                         if db['split']:
                             parts = [([p], [dt], [mo]) for p in ps for dt in dtypes for mo in modes]
@@ -339,6 +340,8 @@ def _convert(native, dtype):
         return native.copy()
     if dtype == 'int64':
         return native.astype(np.int64)
+    if dtype == 'bool':
+        return native.astype(bool)          # a syndrome as comparisons produce it (s != 0)
     return [int(x) for x in native]
 
 
@@ -474,9 +477,11 @@ def eval_case(case):
         try:
             corr = dec.decode(arg)
         except Exception as exc:
-            if dtype == 'list':
-                bump('list_rejected')
-                outcomes.add('%s|list-rejected|%s' % (dname, type(exc).__name__))
+            if dtype in ('list', 'bool') and isinstance(exc, (TypeError, ValueError)):
+                # not the declared argument type (ndarray of 0/1 integers): a refusal is counted, not reported;
+                # a decoder that accepts it is held to the full oracle
+                bump(dtype + '_rejected')
+                outcomes.add('%s|%s-rejected|%s' % (dname, dtype, type(exc).__name__))
                 return
             report('decode-raises', mode, dtype, rate, idx, {'message': str(exc)[:200]},
                    exc=type(exc).__name__, where=_panqec_where(exc))
